@@ -201,7 +201,10 @@ fn corrupt(rng: &mut Rng, cfg: &Cfg, m: &mut Value) -> (String, String) {
             *target = json!(c);
         }
         "ibc_token_denom" => {
-            let c = match rng.below(7) {
+            let c = match rng.below(10) {
+                7 => format!("ibc/ibc/{}", "A".repeat(64)),
+                8 => format!("ibc/ibc/ibc/{}", "A".repeat(64)),
+                9 => format!("ibc//{}", "A".repeat(64)),
                 0 => "ibc/".to_string(),
                 1 => format!("ibc/{}", "A".repeat(63)),
                 2 => format!("ibc/{}", "A".repeat(65)),
